@@ -77,7 +77,7 @@ Section KClosed.
     - apply drain_closed. apply advance_closed. apply drain_closed. exact H.
     - destruct (find_dialing s a) as [n|]; [|exact H]. apply drain_closed. cbn [snd].
       apply (end_closed (de_se e0 [] [], s)). exact H.
-    - apply drain_closed. cbn [snd]. apply Pstep, H.
+    - apply drain_closed. cbn [snd]. apply Pstep, Pstep, H.
     - apply drain_closed. exact H.
     - exact H.
     - apply drain_closed. exact H.
@@ -133,4 +133,257 @@ Lemma monitor_d_accepts_partial_l : forall fdl ppl fds xs, 0 <= fdl -> 0 <= ppl 
 Proof.
   intros fdl ppl fds xs H1 H2. apply monitor_d_caps_model. cbn.
   split; [apply init_inv2; assumption | split; reflexivity].
+Qed.
+
+(* ---- clause 2: a cancelled caller is released in the same step, with its context error ---- *)
+From Verif Require Import c05.Proofs_Composite2.
+
+(* a caller that has returned is in the list of returns *)
+Definition RC (s : cst) : Prop :=
+  forall c r, cget c s = Some r -> cr_phase r = PReturned -> In c (map fst (c_rets s)).
+
+Definition rets_ext (s0 s : cst) : Prop := exists l, c_rets s = c_rets s0 ++ l.
+Definition known (s0 s : cst) : Prop := forall c, cget c s0 <> None -> cget c s <> None.
+
+Lemma rets_ext_refl : forall s, rets_ext s s. Proof. intros. exists []. rewrite app_nil_r. reflexivity. Qed.
+Lemma rets_ext_trans : forall a b c, rets_ext a b -> rets_ext b c -> rets_ext a c.
+Proof. intros a b c [l1 E1] [l2 E2]. exists (l1 ++ l2). rewrite E2, E1, app_assoc. reflexivity. Qed.
+
+(* what a step does to callers and returns: nothing, a record update that keeps the phase
+   un-returned or returns the caller together with an entry in c_rets *)
+Lemma do_leave_facts : forall s c r k, cget c s = Some r ->
+  c_rets (do_leave s c r k) = c_rets s ++ [(c, k)] /\
+  (forall x, cget x (do_leave s c r k) = if c =? x then Some (set_phase r PReturned) else cget x s).
+Proof.
+  intros s c r k Hc. unfold do_leave. cprj. destruct (p_active _); cprj; split; try reflexivity;
+    intros x; unfold cget; cprj; apply aget_aput.
+Qed.
+
+Lemma cstep_facts : forall s l, RC s ->
+  RC (cstep s l) /\ rets_ext s (cstep s l) /\ known s (cstep s l).
+Proof.
+  intros s l R.
+  assert (Same : forall s', c_callers s' = c_callers s -> c_rets s' = c_rets s -> RC s' /\ rets_ext s s' /\ known s s').
+  { intros s' Ec Er. split; [|split].
+    - intros c r. unfold cget. rewrite Ec, Er. apply R.
+    - exists []. rewrite Er, app_nil_r. reflexivity.
+    - intros c. unfold cget. rewrite Ec. auto. }
+  assert (Upd : forall c r r' s', cget c s = Some r -> cr_phase r' <> PReturned \/ cr_phase r = PReturned ->
+                 c_callers s' = aput c (Some r') (c_callers s) -> c_rets s' = c_rets s -> RC s' /\ rets_ext s s' /\ known s s').
+  { intros c r r' s' Hc Hp Ec Er. split; [|split].
+    - intros x rx. unfold cget. rewrite Ec, Er, aget_aput. destruct (c =? x) eqn:E; [|apply R].
+      apply Z.eqb_eq in E. subst x. intros H Hr. inversion H; subst rx. destruct Hp as [Hp|Hp]; [congruence | apply (R c r Hc Hp)].
+    - exists []. rewrite Er, app_nil_r. reflexivity.
+    - intros x. unfold cget. rewrite Ec, aget_aput. destruct (c =? x); [discriminate | auto]. }
+  assert (Leave : forall c r k, cget c s = Some r -> RC (do_leave s c r k) /\ rets_ext s (do_leave s c r k) /\ known s (do_leave s c r k)).
+  { intros c r k Hc. destruct (do_leave_facts s c r k Hc) as [Er Eg]. split; [|split].
+    - intros x rx. rewrite Eg, Er, map_app. destruct (c =? x) eqn:E.
+      + intros _ _. apply Z.eqb_eq in E. subst x. apply in_or_app. right. left. reflexivity.
+      + intros H Hr. apply in_or_app. left. apply (R x rx H Hr).
+    - exists [(c, k)]. exact Er.
+    - intros x. rewrite Eg. destruct (c =? x); [discriminate | auto]. }
+  destruct l; cbn [cstep].
+  - destruct (cget c s) as [r0|] eqn:Ec; [apply Same; reflexivity|].
+    assert (New : forall rc s', cr_phase rc <> PReturned -> c_callers s' = aput c (Some rc) (c_callers s) -> c_rets s' = c_rets s ->
+                    RC s' /\ rets_ext s s' /\ known s s').
+    { intros rc s' Hp E1 E2. split; [|split].
+      - intros x rx. unfold cget. rewrite E1, E2, aget_aput. destruct (c =? x); [intros H; inversion H; subst; congruence | apply R].
+      - exists []. rewrite E2, app_nil_r. reflexivity.
+      - intros x. unfold cget. rewrite E1, aget_aput. destruct (c =? x); [discriminate | auto]. }
+    destruct best.
+    + split; [|split].
+      * intros x rx. unfold cget. cprj. rewrite aget_aput, map_app. destruct (c =? x) eqn:E.
+        -- intros _ _. apply Z.eqb_eq in E. subst x. apply in_or_app. right. left. reflexivity.
+        -- intros H Hr. apply in_or_app. left. apply (R x rx H Hr).
+      * exists [(c, 0)]. reflexivity.
+      * intros x. unfold cget. cprj. rewrite aget_aput. destruct (c =? x); [discriminate | auto].
+    + destruct (p_active _); cprj.
+      * destruct (aget None p (c_gen s)); [|apply Same; reflexivity]. eapply New; [|reflexivity|reflexivity]; cbn; discriminate.
+      * eapply New; [|reflexivity|reflexivity]; cbn; discriminate.
+  - destruct (cget c s) as [r|] eqn:Ec; [|apply Same; reflexivity]. destruct (cr_phase r) eqn:Ep; try (apply Same; reflexivity).
+    eapply Upd; [exact Ec | | reflexivity | reflexivity]; left; cbn; discriminate.
+  - destruct (g <? c_next s); [|apply Same; reflexivity].
+    match goal with |- context [fold_left ?f ?news ?s0] => destruct (add_jobs_frame g (aget 0 g (c_gpeer s)) news s0) as [A [B _]] end.
+    apply Same; [rewrite A | rewrite B]; reflexivity.
+  - apply Same; reflexivity.
+  - destruct (jget n s) as [j|]; [|apply Same; reflexivity]. destruct (_ && _); apply Same; reflexivity.
+  - destruct (jget n s) as [j|]; [|apply Same; reflexivity]. destruct (jr_reported j); apply Same; reflexivity.
+  - destruct (cget c s) as [r|] eqn:Ec; [|apply Same; reflexivity].
+    destruct (cr_phase r) eqn:Ep; try (apply Same; reflexivity);
+      (eapply Upd; [exact Ec | | reflexivity | reflexivity]; left; cbn; rewrite Ep; discriminate).
+  - destruct (cget c s) as [r|] eqn:Ec; [|apply Same; reflexivity].
+    destruct (cr_phase r); try (apply Same; reflexivity).
+    + destruct (cr_canc r); [apply Leave, Ec | apply Same; reflexivity].
+    + destruct (resp_of c _) as [[|]|]; try (apply Leave, Ec). destruct (cr_canc r); [apply Leave, Ec | apply Same; reflexivity].
+  - destruct (memz g (c_stale s)); apply Same; reflexivity.
+Qed.
+
+(* the three facts as one predicate relative to the state at the start of the step *)
+Definition RK (s0 s : cst) : Prop := RC s /\ RInv s /\ rets_ext s0 s /\ known s0 s.
+
+Lemma RK_step : forall s0 s l, RK s0 s -> RK s0 (cstep s l).
+Proof.
+  intros s0 s l [A [B [C D]]]. destruct (cstep_facts s l A) as [A' [C' D']].
+  split; [exact A'|]. split; [apply cstep_rinv, B|]. split; [eapply rets_ext_trans; eauto|].
+  intros c H. apply D', D, H.
+Qed.
+
+Lemma RK_refl : forall s, RC s -> RInv s -> RK s s.
+Proof. intros. split; [assumption|]. split; [assumption|]. split; [apply rets_ext_refl | intros c H'; exact H']. Qed.
+
+Lemma in_fold_remz : forall l w c, In c (fold_right remz w l) -> In c w /\ ~ In c l.
+Proof.
+  induction l as [|x l IH]; intros w c H; cbn [fold_right] in H; [split; [exact H | intros []]|].
+  unfold remz in H at 1. apply filter_In in H. destruct H as [H Hn]. destruct (IH w c H) as [A B].
+  split; [exact A|]. intros [X|X]; [subst x; rewrite Z.eqb_refl in Hn; discriminate | contradiction].
+Qed.
+
+(* the callers the monitor believes inside are inside *)
+Definition WL (s : cst) (w : list Z) : Prop :=
+  forall c, In c w -> exists r, cget c s = Some r /\ cr_phase r <> PReturned.
+
+Definition wf_kstim (s : cst) (x : cstim) : Prop :=
+  match x with KCall c _ _ _ => cget c s = None | _ => True end.
+
+(* generic over the step function so that the termination check does not unfold kstep *)
+Fixpoint gwf {S X : Type} (step : S -> X -> S) (ok : S -> X -> Prop) (s : S) (xs : list X) : Prop :=
+  match xs with [] => True | x :: r => ok s x /\ gwf step ok (step s x) r end.
+
+Definition wf_kstims (es : denv * cst) (xs : list cstim) : Prop :=
+  gwf kstep (fun es x => wf_kstim (snd es) x) es xs.
+
+Lemma kstep_RK : forall es x, RC (snd es) -> RInv (snd es) -> RK (snd es) (snd (kstep es x)).
+Proof.
+  intros es x A B. apply (kstep_closed (RK (snd es))); [intros; apply RK_step; assumption | apply RK_refl; assumption].
+Qed.
+
+Lemma sort_pairs_in : forall x l, In x (sort_pairs l) <-> In x l.
+Proof.
+  intros x l. split; intros H.
+  - eapply Permutation.Permutation_in; [apply c05.Proofs_WorkerMon.sort_pairs_perm | exact H].
+  - eapply Permutation.Permutation_in; [apply Permutation.Permutation_sym, c05.Proofs_WorkerMon.sort_pairs_perm | exact H].
+Qed.
+
+Definition RCX (s2 : cst) (y : cst) : Prop := RC y /\ rets_ext s2 y /\ known s2 y.
+
+Lemma RCX_step : forall s2 y l, RCX s2 y -> RCX s2 (cstep y l).
+Proof.
+  intros s2 y l [A [B C]]. destruct (cstep_facts y l A) as [A' [B' C']].
+  split; [exact A'|]. split; [eapply rets_ext_trans; eauto | intros c H; apply C', C, H].
+Qed.
+
+(* the new caller of a KCall stimulus is registered by its first label *)
+Lemma call_registers : forall s c sim fdir best, GInv s -> cget c s = None ->
+  cget c (cstep s (CCall c PEER sim fdir best)) <> None.
+Proof.
+  intros s c sim fdir best G Hc. cbn [cstep]. rewrite Hc. destruct best.
+  - unfold cget. cprj. rewrite aget_aput, Z.eqb_refl. discriminate.
+  - destruct (p_active (sget PEER (c_sync s))) eqn:Ha; cprj.
+    + destruct (g_active s G PEER Ha) as [g Hg]. rewrite Hg. unfold cget. cprj. rewrite aget_aput, Z.eqb_refl. discriminate.
+    + unfold cget. cprj. rewrite aget_aput, Z.eqb_refl. discriminate.
+Qed.
+
+Lemma step_clause2 : forall es x w, GInv (snd es) -> RC (snd es) -> RInv (snd es) -> WL (snd es) w -> wf_kstim (snd es) x ->
+  let es' := kstep es x in
+  let o := kobs es es' in
+  let wait0 := match x with KCall c _ _ _ => c :: w | _ => w end in
+  let wait1 := fold_right remz wait0 (map fst (d_rets o)) in
+  match x with
+  | KCancel c => mem_z c w && negb (existsb (fun e => (fst e =? c) && (snd e =? 2)) (d_rets o))
+  | _ => false end = false /\
+  GInv (snd es') /\ RC (snd es') /\ RInv (snd es') /\ WL (snd es') wait1.
+Proof.
+  intros [e0 s] x w G A B Wl Wf. cbn [snd] in G, A, B, Wl, Wf.
+  pose proof (kstep_RK (e0, s) x A B) as RKx.
+  pose proof (kstep_closed GInv cstep_ginv (e0, s) x G) as G'.
+  remember (kstep (e0, s) x) as es' eqn:Ees. intros es'' o wait0 wait1. subst es''.
+  destruct RKx as [A' [B' [[l El] Kn]]]. cbn [snd] in El, Kn, G'.
+  assert (Rn : d_rets o = sort_pairs l).
+  { unfold o, kobs, dobs_of. cbn [d_rets]. change (snd (e0, s)) with s. rewrite El, c05.Proofs_WorkerMon.skipn_app_len. reflexivity. }
+  split; [|split; [exact G'|split; [exact A'|split; [exact B'|]]]].
+  - destruct x; try reflexivity. destruct (mem_z c w) eqn:Em; [|reflexivity]. cbn [andb]. apply negb_false_iff.
+    apply mem_z_In in Em. destruct (Wl c Em) as [r [Hc Hp]].
+    set (s1 := cstep s (CCancel c)). set (s2 := cstep s1 (CLeave c false)).
+    assert (C1 : cget c s1 = Some (set_canc r) /\ c_rets s1 = c_rets s).
+    { unfold s1. cbn [cstep]. rewrite Hc. destruct (cr_phase r) eqn:Ep; try congruence;
+        (split; [unfold cget; cprj; rewrite aget_aput, Z.eqb_refl; reflexivity | reflexivity]). }
+    destruct C1 as [C1 C2].
+    assert (E2 : c_rets s2 = c_rets s ++ [(c, 2)]).
+    { unfold s2. cbn [cstep]. rewrite C1. cbn [cr_phase set_canc cr_canc cr_gen negb andb].
+      assert (L : c_rets (do_leave s1 c (set_canc r) 2) = c_rets s ++ [(c, 2)]).
+      { destruct (do_leave_facts s1 c (set_canc r) 2 C1) as [X _]. rewrite X, C2. reflexivity. }
+      destruct (cr_phase r) eqn:Ep; try congruence; try exact L.
+      destruct (resp_of c _) as [[|]|]; exact L. }
+    assert (R2 : RC s2) by (apply cstep_facts, cstep_facts, A).
+    assert (Ex : RCX s2 (snd es')).
+    { rewrite Ees. change (kstep (e0, s) (KCancel c)) with (drain (de_se e0 [] [], s2)).
+      apply (drain_closed (RCX s2) (RCX_step s2)). change (snd (de_se e0 [] [], s2)) with s2.
+      split; [exact R2|]. split; [apply rets_ext_refl | intros y Hy; exact Hy]. }
+    destruct Ex as [_ [[l3 E3] _]]. rewrite E2, <- app_assoc in E3. rewrite El in E3. apply app_inv_head in E3.
+    apply existsb_exists. exists (c, 2). split; [|cbn [fst snd]; rewrite Z.eqb_refl; reflexivity].
+    rewrite Rn. apply sort_pairs_in. rewrite E3. left. reflexivity.
+  - intros c' Hin. unfold wait1 in Hin. apply in_fold_remz in Hin. destruct Hin as [H0 Hn].
+    assert (Old : ~ In c' (map fst (c_rets s)) /\ cget c' (snd es') <> None).
+    { unfold wait0 in H0. destruct x; try (destruct (Wl c' H0) as [r [Hc Hp]]; split;
+        [intros X; destruct (r_ret s B c' X) as [r0 [Y1 Y2]]; congruence | apply Kn; congruence]).
+      destruct H0 as [H0|H0].
+      - subst c'. cbn [wf_kstim] in Wf. split; [intros X; destruct (r_ret s B c X) as [r0 [Y1 _]]; congruence|].
+        set (s1 := cstep s (CCall c PEER sim fdir (okconn (de_se e0 [] []) fdir))).
+        assert (Ex : RCX s1 (snd es')).
+        { rewrite Ees. unfold kstep. fold s1.
+          match goal with |- RCX s1 (snd (drain ?z)) => apply (drain_closed (RCX s1) (RCX_step s1) z) end.
+          match goal with |- RCX s1 (snd (?a, ?b)) => change (snd (a, b)) with b end.
+          split; [apply cstep_facts, A|]. split; [apply rets_ext_refl | intros y Hy; exact Hy]. }
+        destruct Ex as [_ [_ K1]]. apply K1. apply call_registers; auto.
+      - destruct (Wl c' H0) as [r [Hc Hp]]. split;
+          [intros X; destruct (r_ret s B c' X) as [r0 [Y1 Y2]]; congruence | apply Kn; congruence]. }
+    destruct Old as [O1 O2]. destruct (cget c' (snd es')) as [r'|] eqn:Ec; [|congruence].
+    exists r'. split; [reflexivity|]. intros Hr. pose proof (A' c' r' Ec Hr) as X. rewrite El, map_app in X.
+    apply in_app_or in X. destruct X as [X|X]; [contradiction|]. apply Hn. rewrite Rn.
+    apply in_map_iff in X. destruct X as [pr [X1 X2]]. apply in_map_iff. exists pr. split; [exact X1 | apply sort_pairs_in, X2].
+Qed.
+
+Lemma gwf_cons : forall (S X : Type) (step : S -> X -> S) ok s x r,
+  gwf step ok s (x :: r) = (ok s x /\ gwf step ok (step s x) r).
+Proof. reflexivity. Qed.
+
+(* on every trace of the composite model (fresh caller ids) the DialPeer monitor reports
+   neither clause 2 (cancelled caller not released) nor clause 4 (caps) *)
+Lemma monitor_d_model24 : forall fdl ppl xs es m i,
+  LimC fdl ppl (snd es) -> GInv (snd es) -> RC (snd es) -> RInv (snd es) -> WL (snd es) (dm_wait m) ->
+  wf_kstims es xs ->
+  forall d, monitor_d fdl ppl m i (ctrace es xs) = d ->
+  d = [] \/ exists j c, d = [ERR_PROPERTY; j; c] /\ c <> 2 /\ c <> 4.
+Proof.
+  induction xs as [|x xs IH]; intros es m i L G A B Wl Wf d H.
+  - left. cbn in H. congruence.
+  - unfold ctrace in *. rewrite gtrace_cons in H. cbn [monitor_d] in H.
+    unfold wf_kstims in Wf. rewrite gwf_cons in Wf. destruct Wf as [Wf1 Wf2].
+    pose proof (kstep_closed (LimC fdl ppl) (LimC_step fdl ppl) es x L) as L'.
+    pose proof (caps_clause fdl ppl (snd es) (fst (kstep es x)) (snd (kstep es x)) L') as Cc. cbv zeta in Cc.
+    fold (kobs es (kstep es x)) in Cc.
+    destruct (step_clause2 es x (dm_wait m) G A B Wl Wf1) as [C2 [G' [A' [B' Wl']]]]. cbv zeta in C2, Wl'.
+    cbv zeta in H.
+    repeat match type of H with
+    | (if ?c then ?a else ?b) = d =>
+        lazymatch a with
+        | [ERR_PROPERTY; _; 4] => rewrite Cc in H; cbn [negb] in H
+        | [ERR_PROPERTY; _; 2] => rewrite C2 in H
+        | _ => destruct c; [right; eexists; eexists; split; [symmetry; exact H | split; discriminate]|]
+        end
+    end.
+    eapply IH; eauto. cbn [dm_wait]. exact Wl'.
+Qed.
+
+Lemma monitor_d_accepts_partial24_l : forall fdl ppl fds xs, 0 <= fdl -> 0 <= ppl ->
+  wf_kstims (init_denv, init_c fdl ppl fds) xs ->
+  forall d, monitor_d fdl ppl (mkDmon [] [] [] false false) 0 (ctrace (init_denv, init_c fdl ppl fds) xs) = d ->
+  d = [] \/ exists j c, d = [ERR_PROPERTY; j; c] /\ c <> 2 /\ c <> 4.
+Proof.
+  intros fdl ppl fds xs H1 H2 Wf. apply monitor_d_model24; auto; cbn [snd].
+  - cbn. split; [apply init_inv2; assumption | split; reflexivity].
+  - apply init_ginv.
+  - intros c r H. discriminate.
+  - apply init_rinv.
+  - intros c [].
 Qed.
